@@ -223,6 +223,16 @@ pub fn check_c28(res: &RunResult, initial_voters: u32) -> V {
 pub fn check_c27(res: &RunResult) -> V {
     // own-status timeline: is `node` a learner in its own view?
     let mut self_learner: BTreeMap<u32, bool> = BTreeMap::new();
+    // Membership views are sampled at scenario steps, not at every instant: a node counts as a learner at time
+    // t only if it is one in the last sample before t AND in the next sample after t (a promotion applied
+    // between two samples must not be read as "a learner voted"; samples are recorded on change only, so a
+    // missing later sample means the view stayed as it was).
+    let samples: Vec<(u64, u32, bool)> = res
+        .history
+        .iter()
+        .filter_map(|(t, e)| if let Ev::Membership { node, learners, .. } = e { Some((*t, *node, learners.contains(node))) } else { None })
+        .collect();
+    let still_learner_after = |node: u32, t: u64| -> bool { samples.iter().find(|(ts, n, _)| *n == node && *ts > t).map(|(_, _, l)| *l).unwrap_or(true) };
     let mut leader_view_members: BTreeMap<u32, BTreeSet<u32>> = BTreeMap::new();
     // commit times of AddNode(id)
     let mut addnode_commit_time: BTreeMap<u32, u64> = BTreeMap::new();
@@ -245,7 +255,7 @@ pub fn check_c27(res: &RunResult) -> V {
                 self_learner.remove(node);
             }
             Ev::VoteRespDelivered { voter, candidate, req_term, granted: true, .. } => {
-                if self_learner.get(voter).copied().unwrap_or(false) {
+                if self_learner.get(voter).copied().unwrap_or(false) && still_learner_after(*voter, *t) {
                     return Some((
                         "C27:learner-granted-a-vote".into(),
                         format!("t={t}ms node {voter}, a learner in its own membership view, granted its vote to {candidate} in term {req_term}"),
@@ -253,7 +263,7 @@ pub fn check_c27(res: &RunResult) -> V {
                 }
             }
             Ev::VoteReqSent { from, term, .. } => {
-                if self_learner.get(from).copied().unwrap_or(false) {
+                if self_learner.get(from).copied().unwrap_or(false) && still_learner_after(*from, *t) {
                     return Some(("C27:learner-started-an-election".into(), format!("t={t}ms learner {from} sent vote requests for term {term}")));
                 }
             }
